@@ -17,11 +17,13 @@ import time
 VERIF = os.path.dirname(os.path.dirname(os.path.abspath(__file__)))
 SPEC = os.path.join(VERIF, "spec")
 HARNESS = os.environ.get("VERIF_HARNESS_DIR") or os.path.join(VERIF, "harness")
-EVID = os.path.join(VERIF, "evidence")
-REPLAYS = os.path.join(VERIF, "replays")
-WORK = os.path.join(VERIF, "work")
+_SUF = os.environ.get("VERIF_OUT_SUFFIX", "")   # mutation runs write to evidence<suffix>/ etc. (git-ignored)
+EVID = os.path.join(VERIF, "evidence" + _SUF)
+REPLAYS = os.path.join(VERIF, "replays" + _SUF)
+WORK = os.path.join(VERIF, "work" + _SUF)
 JAR = "/opt/veriftools/tla/tla2tools.jar:/opt/veriftools/tla/CommunityModules-deps.jar"
 BIN = os.path.join(HARNESS, "target", "verif", "scverif")
+REPO = os.environ.get("VERIF_REPO_DIR", "/repo")
 
 
 class ToolError(Exception):
